@@ -1612,6 +1612,23 @@ func descTryFile(c *Ctx, fdp *descriptorpb.FileDescriptorProto) {
 		}()
 		descWalkFile(c, fd)
 	}()
+	// the same (validated) file through the raw-descriptor path of internal/filedesc
+	// (desc_init.go / desc_lazy.go), on local registries
+	func() {
+		defer func() {
+			if r := recover(); r != nil {
+				c.PropFail("C36", "panic while building/walking a generated file through filedesc.Builder", fdp.GetName(), fmt.Sprint(r))
+			}
+		}()
+		raw, err := proto.Marshal(fdp)
+		if err != nil {
+			return
+		}
+		out := filedesc.Builder{GoPackagePath: "verif/desc", RawDescriptor: raw,
+			FileRegistry: new(protoregistry.Files), TypeResolver: new(protoregistry.Types)}.Build()
+		descWalkFile(c, out.File)
+		c.Stat("rawfile")
+	}()
 }
 
 func famDesc(c *Ctx) {
